@@ -62,7 +62,7 @@ func VerifC02Validator() {
 	e := &epb.VMLaunchEndorsement{SerializedUefiGolden: w.payload, Signature: w.signature}
 	vmsas := verifNondetU32("expected_vmsas")
 	opts := &Options{RootsOfTrust: w.roots, Now: w.now, Endorsement: e, SNP: &SNPOptions{ExpectedLaunchVMSAs: vmsas}}
-	opts.ExpectedUefiSha384 = verifOpt("want_len", verifNondetBytes("want", 2))
+	opts.ExpectedUefiSha384 = verifAnyLen("want_len", verifNondetBytes("want", 3))
 	n := int(verifNondetU8("report_meas_len"))
 	verifAssume(n == 0 || n == 47 || n == 48 || n == 49, "report measurement length drawn from {0,47,48,49}")
 	n = verifConcretize(n, 0, 49)
